@@ -63,6 +63,12 @@ CHECKS = {
          "per-byte allowed sets for concurrent reads, final memory, RMW writes always full-enable, no lost strobe, no hang.",
     note=SIMNOTE + " Full-width transfer size only (the only size the bridge documents); AXI valid/payload stability is generated, not assumed of the bridge.",
     technique=PBT + "AXI protocol rules and a byte-accurate reference memory with allowed sets (model-based oracle)"),
+ "C11": dict(category="exploration", design_ref="DESIGN.md section 3, C11 and 8",
+    text="LiteDRAMAvalonMM2Native for 13 avalon:port width pairs (1/8..4, incl. the up- and down-converting builds), max_burst_length 2-64, base addresses, burst increments, between a conforming Avalon-MM master "
+         "(single and burst accesses, any byte enables, write deasserted between beats, waitrequest honoured, address/burstcount don't-care after the first beat) and the realistic native slave: byte reference memory in command order, "
+         "n readdatavalid beats per read burst in order, every accepted beat performed exactly once, final memory, no lost strobe, no hang.",
+    note=SIMNOTE + " What an Avalon master must hold during later beats of a burst is stated in the module's ASSUMPTIONS.",
+    technique=PBT + "a byte-accurate reference memory (model-based oracle)"),
  "C12": dict(category="exploration", design_ref="DESIGN.md section 3, C12",
     text="LiteDRAMDMAReader / LiteDRAMDMAWriter on native ports (realistic slave with unconditional read strobes) and AXI ports (own AXI memory slave), FIFO depths 1-32, buffered or not, consumer stalled for hundreds of cycles with "
          "reads in flight: output stream = memory at the addresses in order with last marks, reads issued minus words delivered never exceeds the FIFO depth, no strobe ever lost, writer log = input pairs exactly once in order; plus writer->reader round trips on the whole core.",
